@@ -165,6 +165,11 @@ func (v *Verifier) applyContract(st *State, in ssa.Instruction, key string, ct *
 		v.emit(st, "pre", short+"."+r.Label+"@"+v.siteLabel(in), se.evalBool(r.E), r.Props, "requires "+r.Text, in)
 		st.assume(se.evalBool(r.E))
 	}
+	// termination: a call from a function with a measure to a function with a measure must decrease it
+	if v.measure0 != "" && ct.Decreases != nil && v.contract != nil {
+		mc := se.eval(ct.Decreases.E).T
+		v.emit(st, "dec.call", short+"@"+v.siteLabel(in), and("(>= "+mc+" 0)", "(< "+mc+" "+v.measure0+")"), v.contract.Props, "call decreases the termination measure: "+ct.Decreases.Text, in)
+	}
 	pre := st.snapshot()
 	// havoc the modifies set
 	preEnv := &SpecEnv{e: v.env, s: pre, old: pre, vars: vars, pkg: ct.Pkg, qn: &v.qn}
@@ -357,6 +362,21 @@ func (v *Verifier) callMods(c *ssa.CallCommon, maps map[string]string) bool {
 			ft := v.staticFieldMaps(t, m.Name, maps)
 			if !ft {
 				return true
+			}
+		case "fields":
+			t := v.staticType(m.E, ptypes, ct.Pkg)
+			if t == nil {
+				return true
+			}
+			if p, ok := t.Underlying().(*types.Pointer); ok {
+				t = p.Elem()
+			}
+			stt, ok := t.Underlying().(*types.Struct)
+			if !ok {
+				return true
+			}
+			for i := 0; i < stt.NumFields(); i++ {
+				v.fieldMaps(t, i, maps)
 			}
 		case "elems":
 			t := v.staticType(m.E, ptypes, ct.Pkg)
@@ -681,7 +701,36 @@ var nativeMods = map[string]nativeModFn{}
 
 func pureMods(v *Verifier, c *ssa.CallCommon, maps map[string]string) bool { return false }
 
+// pureLib: library functions without effect on the modelled state whose result is left
+// unconstrained (beyond its type).
+var pureLib = []string{"strings.Join", "strings.Split", "strings.Contains", "strings.HasPrefix", "strings.HasSuffix",
+	"strings.Repeat", "strings.Fields", "strings.Index", "strings.EqualFold", "strings.TrimLeft", "strings.TrimRight", "strings.Trim",
+	"strconv.Itoa", "strconv.Quote", "strconv.FormatInt", "os.IsNotExist", "os.IsExist", "filepath.Join",
+	"utf8.RuneCount", "utf8.RuneLen", "utf8.DecodeRune", "utf8.RuneCountInString", "unicode.IsSpace", "unicode.IsLetter", "unicode.IsDigit",
+	"sort.Strings"}
+
 func init() {
+	for _, k := range pureLib {
+		if k == "sort.Strings" {
+			continue
+		}
+		nativeStubs[k] = func(v *Verifier, st *State, in ssa.Instruction, c *ssa.CallCommon, args []Value, retT types.Type) Value {
+			if retT == nil {
+				return Value{}
+			}
+			r := v.freshValue(st, "ret.lib", retT)
+			v.assumeTypeFacts(st, r)
+			if r.Sort == "Slice" {
+				// a freshly allocated result
+				st.assume("(> " + sliceBase(r.T) + " " + st.alloc + ")")
+				na := v.env.ctx.freshConst("alloc", "Int")
+				st.assume("(>= " + na + " " + sliceBase(r.T) + ")")
+				st.alloc = na
+			}
+			return r
+		}
+		nativeMods[k] = pureMods
+	}
 	// fmt: formatting has no effect on the modelled state; results are unknown strings / fresh errors
 	for _, k := range []string{"fmt.Printf", "fmt.Println", "fmt.Print", "fmt.Fprintf", "fmt.Fprint", "fmt.Fprintln"} {
 		nativeStubs[k] = func(v *Verifier, st *State, in ssa.Instruction, c *ssa.CallCommon, args []Value, retT types.Type) Value {
@@ -705,6 +754,13 @@ func init() {
 		return r
 	}
 	nativeMods["fmt.Errorf"] = pureMods
+	for _, k := range []string{"strings.NewReader", "bytes.NewReader", "bufio.NewReader"} {
+		nativeStubs[k] = func(v *Verifier, st *State, in ssa.Instruction, c *ssa.CallCommon, args []Value, retT types.Type) Value {
+			r := v.env.allocRef(st, "reader")
+			return Value{T: r, Sort: "Int", GoT: retT}
+		}
+		nativeMods[k] = pureMods
+	}
 	nativeStubs["errors.New"] = func(v *Verifier, st *State, in ssa.Instruction, c *ssa.CallCommon, args []Value, retT types.Type) Value {
 		return v.env.freshErr(st)
 	}
